@@ -1822,6 +1822,11 @@ func tagSchemaCase(ts *TagSchema) {
 		fmt.Sprintf("P %d %s O %s", len(pages), ps, outcome))
 	run.Count("tagschema_" + outcome)
 	run.Nontrivial(fmt.Sprintf("X%v", *ts))
+	if !ts.Absent && len(reg.Log) == 1 && reg.Log[0].Status == 200 {
+		bid := run.NewID()
+		run.Case(bid, fmt.Sprintf("XB %d %d", ts.Limit, len(doc)), strconv.Itoa(reg.Log[0].BytesRead()))
+		run.Count("bytes_consumed_index")
+	}
 	// oracle
 	fail := func(sig, msg string) { run.OracleFail(id, sig, "tag schema: "+msg, ts) }
 	// ground truth: every non-empty entry of the index once (first occurrence), of the requested type
@@ -2337,7 +2342,7 @@ func coverageFloors() {
 		return n
 	}
 	floors := map[string]int{
-		"bytes_consumed": 1000, "bytes_consumed_nontrivial": 100, "json_listing_body": 200, "json_OK": 200, "json_IN": 500, "string_loop": 2000, "string_first_request": 1000, "string_next_request_NEXT": 1000, "string_next_request_NONE": 300, "string_next_request_ERR": 10,
+		"bytes_consumed_index": 100, "bytes_consumed": 1000, "bytes_consumed_nontrivial": 100, "json_listing_body": 200, "json_OK": 200, "json_IN": 500, "string_loop": 2000, "string_first_request": 1000, "string_next_request_NEXT": 1000, "string_next_request_NONE": 300, "string_next_request_ERR": 10,
 		"string_set_query": 300, "string_escape": 200, "string_resolve_OK": 200, "string_resolve_ER": 50,
 		"cursor_opaque": 100, "hidden_entries": 100, "list_empty_page_with_link": 20, "link_raw_pairs": 50, "link_other_path": 50, "link_after_redirect": 30, "link_further_values": 100, "link_rel_first_stream": 5,
 		"list_link_missing_midway": 5, "json_shape_variant": 100, "registry_page": 1000, "exhaustive": 200,
